@@ -110,7 +110,7 @@ BUS_PROPS = {
     'C07': dict(oracle=lambda F, w: oracle.c07(F),
                 profiles=[('topo', 5), ('topo_traffic', 4), ('topo_redispatch', 3), ('topo_small_history', 3), ('multi_fwd', 2)]),
     'C08': dict(oracle=lambda F, w: oracle.c08(F), watch=completion_watch,
-                profiles=[('topo', 4), ('topo_traffic', 2), ('multi_fwd', 3), ('nested', 2), ('redispatch', 2), ('clean', 1), ('errors', 1), ('timeouts', 3), ('timeouts_clean', 1)]),
+                profiles=[('topo', 4), ('topo_traffic', 2), ('multi_fwd', 3), ('nested', 2), ('redispatch', 2), ('clean', 1), ('errors', 3), ('timeouts', 3), ('timeouts_clean', 1)]),
     'C09': dict(oracle=lambda F, w: oracle.c09(F),
                 profiles=[('lineage', 4), ('redispatch', 2), ('parallel', 2), ('multi_fwd', 2), ('clean', 1)]),
     'C10': dict(oracle=lambda F, w: oracle.c10(F),
@@ -120,7 +120,7 @@ BUS_PROPS = {
     'C13': dict(oracle=lambda F, w: oracle.c13(F) + [v for v in oracle.c01(F) if v['clause'] != 'C01.hang'] + oracle.hang_violations(F, 'C13'),
                 profiles=[('small_history_flat', 3), ('small_history', 3)]),
     'C14': dict(oracle=lambda F, w: oracle.c14(F),
-                profiles=[('flood_caller', 3), ('flood_handler', 4), ('backlog', 1), ('small_history', 1)]),
+                profiles=[('flood_caller', 3), ('flood_handler', 4), ('backlog', 1), ('small_history', 1), ('timeouts', 2), ('timeout_enum', 3)]),
     'C15': dict(oracle=lambda F, w: oracle.c15(F),
                 profiles=[('idle_race', 4), ('idle_dead_loop', 3), ('errors', 1), ('timeouts', 1), ('multi_fwd', 2)]),
     'C17': dict(oracle=lambda F, w: oracle.c17(F, w),
